@@ -147,7 +147,7 @@ def replay_cases(cases):
     return json.loads(line[len("REPLAY-RESULTS ") :])
 
 
-def finish(prop, tier, reports, t0, level="model_checking", extra_cov=None, must_reach=True):
+def finish(prop, tier, reports, t0, level="model_checking", extra_cov=None, must_reach=True, mod=None):
     """Aggregate reports -> evidence, findings, exit code."""
     known = load_known()
     errors = [r for r in reports if r.error]
@@ -157,6 +157,27 @@ def finish(prop, tier, reports, t0, level="model_checking", extra_cov=None, must
     for q in queries:
         counts[q["verdict"]] = counts.get(q["verdict"], 0) + 1
     cex = [c for r in reports for c in r.cex]
+    # verdicts without a specific counterexample (sat, or unknown on a must-hold claim) get the property's
+    # generic public-API replay: only what reproduces on the real code is ever reported
+    if mod is not None and hasattr(mod, "default_cex"):
+        have = {c["name"] for c in cex}
+        first = {}
+        for q in queries:
+            tags = q.get("tags") or {}
+            if q["name"] in have or tags.get("optional") or q["verdict"] not in ("sat", "unknown"):
+                continue
+            d = mod.default_cex(q["name"])
+            if not d:
+                continue
+            ce = {"name": q["name"], "case": d.get("case", {}), "cls": d["cls"], "from_unknown": q["verdict"] == "unknown"}
+            key = json.dumps([d["replay"], d.get("case", {})], sort_keys=True, default=str)
+            if key not in first:
+                first[key] = q["name"]
+                ce["replay"] = d["replay"]
+            else:
+                ce["same_as"] = first[key]
+            cex.append(ce)
+            have.add(q["name"])
     # replay every counterexample before anything is said about it
     replay_in = [c for c in cex if c.get("replay")]
     results = []
@@ -183,7 +204,8 @@ def finish(prop, tier, reports, t0, level="model_checking", extra_cov=None, must
             spurious.append(c)
             continue
         if not rr["reproduced"]:
-            spurious.append(c)
+            if not c.get("from_unknown"):
+                spurious.append(c)
             continue
         k = match_known(prop, c.get("cls", {}), known)
         if k is not None:
@@ -203,7 +225,9 @@ def finish(prop, tier, reports, t0, level="model_checking", extra_cov=None, must
         lines.append(f"VIOLATION property={prop} replay={path}")
     # a spurious model on a must-hold obligation is inconclusive (encoding too weak there)
     inconclusive = [q["name"] for q in queries if q["verdict"] == "unknown"]
-    inconclusive_core = [q["name"] for q in queries if q["verdict"] == "unknown" and not (q.get("tags") or {}).get("optional")]
+    reproduced_names = {c["name"] for c in violations} | {c["name"] for _, cs in known_hits.values() for c in cs}
+    inconclusive_core = [q["name"] for q in queries if q["verdict"] == "unknown" and not (q.get("tags") or {}).get("optional")
+                         and q["name"] not in reproduced_names]
     spurious_core = [c["name"] for c in spurious if c.get("must_hold", True)]
     cex_names = {c["name"] for c in cex}
     unexplained_sat = [q["name"] for q in queries if q["verdict"] == "sat" and q["name"] not in cex_names and not (q.get("tags") or {}).get("optional")]
